@@ -83,9 +83,12 @@ bool hasEmptyBoneSlot(NifFile& n) {
 	return false;
 }
 
-void checkModel(const std::function<bool(NifFile&)>& make, const std::string& source, const std::string& coverKey) {
-	for (int mode = 0; mode < 2; mode++) {
-		bool raw = mode == 0;
+void checkModel(const std::function<bool(NifFile&)>& make, const std::string& source, const std::string& coverKey, bool saveFirstToo = false) {
+	// passes 0,1: queries, then three saves (raw / default).  Passes 2,3 (edited and API-built models): the first save comes before any
+	// query, so that state the queries would refresh (lazily built vertex copies, cached triangle lists) is still as the edits left it
+	for (int mode = 0; mode < (saveFirstToo ? 4 : 2); mode++) {
+		bool raw = mode % 2 == 0;
+		bool saveFirst = mode >= 2;
 		const char* mn = raw ? "raw" : "default";
 		NifFile n;
 		R_phase("make");
@@ -99,9 +102,13 @@ void checkModel(const std::function<bool(NifFile&)>& make, const std::string& so
 		R_phase("battery0");
 		// Some read-only queries cache derived state lazily (e.g. GetShapePartitions triangulates strip partitions), which is
 		// not an effect of saving: the baseline is the second run of the battery.
-		runBattery(n);
-		BatteryRecord B0 = runBattery(n);
-		R_stat("battery_queries", B0.queries);
+		BatteryRecord B0;
+		if (!saveFirst) {
+			runBattery(n);
+			B0 = runBattery(n);
+			R_stat("battery_queries", B0.queries);
+		}
+		else R_stat("models_saved_before_any_query");
 		std::map<NiObject*, size_t> idmap;
 		std::vector<std::string> C[3];
 		std::string S[3];
@@ -112,7 +119,7 @@ void checkModel(const std::function<bool(NifFile&)>& make, const std::string& so
 			S[k] = saveTraced(n, raw, tr);
 			C[k] = canonOfSave(tr, S[k], idmap, k == 0, indexStrings);
 			R_phase("battery");
-			B[k] = runBattery(n);
+			B[k] = runBattery(n, true, !saveFirst);   // save-first passes: only queries that leave the model alone between the saves
 			R_stat("blocks_saved", (long)tr.blocks.size());
 		}
 		for (int k = 1; k < 3; k++) {
@@ -129,15 +136,16 @@ void checkModel(const std::function<bool(NifFile&)>& make, const std::string& so
 								 hexs(C[0][i].substr(d, 10), 10).c_str(), hexs(C[k][i].substr(d, 10), 10).c_str());
 					break;
 				}
-			R_viol(std::string("repeat-save-") + mn, site, source + ": " + detail);
+			R_viol(std::string("repeat-save-") + mn + (saveFirst ? "-before-any-query" : ""), site, source + ": " + detail);
 			break;
 		}
 		for (int k = 1; k < 3; k++)
 			if (B[k].full != B[0].full) {
-				R_viol(std::string("query-after-resave-") + mn, vclass + "/" + diffClass(B[0].full, B[k].full), source + fmt(": queries after save 1 vs after save %d: ", k + 1) + firstDiff(B[0].full, B[k].full));
+				R_viol(std::string("query-after-resave-") + mn + (saveFirst ? "-before-any-query" : ""), vclass + "/" + diffClass(B[0].full, B[k].full), source + fmt(": queries after save 1 vs after save %d: ", k + 1) + firstDiff(B[0].full, B[k].full));
 				break;
 			}
-		if (raw) {
+		if (saveFirst) {}
+		else if (raw) {
 			if (B0.logical != B[0].logical)
 				R_viol("query-before-after-raw", vclass + "/" + holeTag(diffClass(B0.logical, B[0].logical)), source + ": logical queries before vs after the first raw save: " + firstDiff(B0.logical, B[0].logical));
 		}
@@ -166,7 +174,7 @@ void checkModel(const std::function<bool(NifFile&)>& make, const std::string& so
 			}
 		}
 		R_stat(S[0] == S[1] && S[1] == S[2] ? "three_saves_byte_identical" : "three_saves_differ_in_bytes_only_by_string_numbering_or_more");
-		if (C[0].size() > 1) R_cover(coverKey + "/" + mn);
+		if (C[0].size() > 1) R_cover(coverKey + "/" + mn + (saveFirst ? "/save-first" : ""));
 	}
 }
 
@@ -253,11 +261,16 @@ void run(size_t idx) {
 					for (uint32_t i = 0; i < nb; i++) perm[i] = i == 0 ? 0 : nb - i;
 					n.GetHeader().SetBlockOrder(perm);
 				}
-				else src += " edits: " + applyRandomEdits(n, rng, 2 + (int)rng.below(5));
+				else {
+					// half of the histories query the model before it is edited, so that whatever the accessors cache (raw vertex copies,
+					// triangulated partitions, tri-part lists) dates from before the edits
+					if ((e / 4) % 2 == 0) { runBattery(n); src += " queried-before-edits"; }
+					src += " edits: " + applyRandomEdits(n, rng, 2 + (int)rng.below(5));
+				}
 				R_caseDesc(src.substr(0, 550));
 				return true;
 			},
-			fmt("edited:%llu", (unsigned long long)seed), fmt("edited:%llu", (unsigned long long)seed));
+			fmt("edited:%llu", (unsigned long long)seed), fmt("edited:%llu", (unsigned long long)seed), true);
 		R_caseDesc(src.substr(0, 550));
 		return;
 	}
@@ -282,7 +295,7 @@ void run(size_t idx) {
 				n.CopyFrom(*m.nif);
 				return true;
 			},
-			fmt("api:%llu:%zu", (unsigned long long)seed, idx), fmt("api:%llu", (unsigned long long)seed));
+			fmt("api:%llu:%zu", (unsigned long long)seed, idx), fmt("api:%llu", (unsigned long long)seed), true);
 		R_caseDesc("api:" + desc);
 		if (idx == 0) R_sample(fmt("{\"source\":\"api\",\"model\":\"%s\"}", jesc(desc).c_str()));
 	}
